@@ -658,6 +658,41 @@ fn finding_key(spec: &RunSpec, f: &Finding) -> String {
     format!("{}|{}", f.class, simcore::fnv_hex(spec.grammar.text.as_bytes()))
 }
 
+enum Msg {
+    Spec(RunSpec),
+    Done(Box<Res>),
+}
+
+struct Res {
+    usable: bool,
+    spec: Option<RunSpec>,
+    finding: Option<Finding>,
+    stats: RunStats,
+    log: String,
+    kmax: usize,
+}
+
+fn one_run(seed: u64, i: usize, corpus: &[(String, String)], cap: usize, k_limit: usize, early: &std::sync::mpsc::Sender<Msg>) -> Res {
+    let (g, opseed) = gen_run(seed, i, corpus);
+    let mut stats = RunStats { answers: 0, definition_checks: 0, states: BTreeSet::new(), evictions: 0, evictions_of_populated: 0, descending_first: 0, panics: 0 };
+    let Some(p) = prepare(&g, cap, k_limit) else {
+        return Res { usable: false, spec: None, finding: None, stats, log: format!("{i} {} unusable", g.origin), kmax: 0 };
+    };
+    let mut rng = Rng::new(opseed);
+    let with_faults = rng.chance(2, 3);
+    let ops = gen_ops(&mut rng, &p, with_faults);
+    // the spec travels ahead of the result: if the execution never returns, the watchdog still
+    // knows what was being executed
+    let _ = early.send(Msg::Spec(RunSpec { grammar: g.clone(), ops: ops.clone() }));
+    let finding = execute(&p, &ops, Some(&mut stats));
+    let log = format!(
+        "{i} {} {} t={} kmax={} ops={} answers={} defchecks={} finding={:?}",
+        g.origin, simcore::fnv_hex(g.text.as_bytes()), g.transform, p.kmax, ops.len(), stats.answers, stats.definition_checks,
+        finding.as_ref().map(|f| (&f.class, f.step))
+    );
+    Res { usable: true, kmax: p.kmax, spec: Some(RunSpec { grammar: g, ops }), finding, stats, log }
+}
+
 fn run_batch(tier: Tier, emit_log: Option<&Path>) -> i32 {
     let t0 = std::time::Instant::now();
     let seed = simcore::env_seed();
@@ -666,30 +701,43 @@ fn run_batch(tier: Tier, emit_log: Option<&Path>) -> i32 {
     let corpus = load_corpus();
     println!("cache-sim: property={PROPERTY} tier={} seed={seed} runs={} workers={workers}", tier.as_str(), b.runs);
 
-    struct Res {
-        usable: bool,
-        spec: Option<RunSpec>,
-        finding: Option<Finding>,
-        stats: RunStats,
-        log: String,
-        kmax: usize,
-    }
-    let results: Vec<Res> = simcore::par_map(b.runs, workers, 64 << 20, |i| {
-        let (g, opseed) = gen_run(seed, i, &corpus);
-        let mut stats = RunStats { answers: 0, definition_checks: 0, states: BTreeSet::new(), evictions: 0, evictions_of_populated: 0, descending_first: 0, panics: 0 };
-        let Some(p) = prepare(&g, b.cap, b.k_limit) else {
-            return Res { usable: false, spec: None, finding: None, stats, log: format!("{i} {} unusable", g.origin), kmax: 0 };
-        };
-        let mut rng = Rng::new(opseed);
-        let with_faults = rng.chance(2, 3);
-        let ops = gen_ops(&mut rng, &p, with_faults);
-        let finding = execute(&p, &ops, Some(&mut stats));
-        let log = format!(
-            "{i} {} {} t={} kmax={} ops={} answers={} defchecks={} finding={:?}",
-            g.origin, simcore::fnv_hex(g.text.as_bytes()), g.transform, p.kmax, ops.len(), stats.answers, stats.definition_checks,
-            finding.as_ref().map(|f| (&f.class, f.step))
-        );
-        Res { usable: true, kmax: p.kmax, spec: Some(RunSpec { grammar: g, ops }), finding, stats, log }
+    // Every run executes on a thread of its own so that a computation that does not come back
+    // (a fixpoint iteration that no longer converges) cannot hang the check: after RUN_TIMEOUT the
+    // run is reported as `no-answer`; the stuck thread is abandoned (it dies with the process).
+    // After three such runs no further runs are started.
+    let timeouts = std::sync::atomic::AtomicUsize::new(0);
+    let run_timeout = std::time::Duration::from_secs(
+        std::env::var("VERIF_C06_TIMEOUT").ok().and_then(|s| s.parse().ok()).unwrap_or(120),
+    );
+    let corpus = std::sync::Arc::new(corpus);
+    let results: Vec<Res> = simcore::par_map(b.runs, workers, 256 << 10, |i| {
+        if timeouts.load(std::sync::atomic::Ordering::Relaxed) >= 3 {
+            let stats = RunStats { answers: 0, definition_checks: 0, states: BTreeSet::new(), evictions: 0, evictions_of_populated: 0, descending_first: 0, panics: 0 };
+            return Res { usable: false, spec: None, finding: None, stats, log: format!("{i} skipped after repeated time-outs"), kmax: 0 };
+        }
+        let (tx, rx) = std::sync::mpsc::channel();
+        let corpus2 = corpus.clone();
+        let (cap, k_limit) = (b.cap, b.k_limit);
+        let _ = std::thread::Builder::new().stack_size(64 << 20).spawn(move || {
+            let r = one_run(seed, i, &corpus2, cap, k_limit, &tx);
+            let _ = tx.send(Msg::Done(Box::new(r)));
+        });
+        let deadline = std::time::Instant::now() + run_timeout;
+        let mut spec: Option<RunSpec> = None;
+        loop {
+            let left = deadline.saturating_duration_since(std::time::Instant::now());
+            match rx.recv_timeout(left) {
+                Ok(Msg::Spec(sp)) => spec = Some(sp),
+                Ok(Msg::Done(r)) => break *r,
+                Err(_) => {
+                    timeouts.fetch_add(1, std::sync::atomic::Ordering::Relaxed);
+                    let stats = RunStats { answers: 0, definition_checks: 0, states: BTreeSet::new(), evictions: 0, evictions_of_populated: 0, descending_first: 0, panics: 0 };
+                    let finding = Some(Finding { class: "no-answer".into(), step: 0, detail: format!("the run did not finish within {} s (normal runs take milliseconds): some FIRST/FOLLOW computation does not terminate", run_timeout.as_secs()) });
+                    let spec = spec.or_else(|| Some(RunSpec { grammar: gen_run(seed, i, &corpus).0, ops: vec![] }));
+                    break Res { usable: true, kmax: 0, spec, finding, stats, log: format!("{i} time-out") };
+                }
+            }
+        }
     });
 
     let mut log = Fnv::new();
@@ -747,7 +795,12 @@ fn run_batch(tier: Tier, emit_log: Option<&Path>) -> i32 {
             continue;
         }
         reported.insert(f.class.clone());
-        let (ms, mf) = minimise(spec, f, b.cap, b.k_limit);
+        let (ms, mf) = if f.class == "no-answer" {
+            // every candidate would cost a full time-out: the replay is the grammar itself
+            (spec.clone(), f.clone())
+        } else {
+            minimise(spec, f, b.cap, b.k_limit)
+        };
         let body = json!({
             "engine": "cache-sim", "property": PROPERTY, "seed": seed.to_string(),
             "signature": {"class": mf.class, "step": mf.step}, "detail": mf.detail,
@@ -810,7 +863,17 @@ fn replay(path: &Path) -> i32 {
     let spec: RunSpec = serde_json::from_value(v["spec"].clone()).unwrap_or_else(|e| harness_error(&format!("replay spec: {e}")));
     let cap = v["cap"].as_u64().unwrap_or(6000) as usize;
     let k_limit = v["k_limit"].as_u64().unwrap_or(6) as usize;
-    match run_spec(&spec, cap, k_limit, None) {
+    let timeout = std::time::Duration::from_secs(std::env::var("VERIF_C06_TIMEOUT").ok().and_then(|s| s.parse().ok()).unwrap_or(120));
+    let (tx, rx) = std::sync::mpsc::channel();
+    let spec2 = spec.clone();
+    let _ = std::thread::Builder::new().stack_size(64 << 20).spawn(move || {
+        let _ = tx.send(run_spec(&spec2, cap, k_limit, None));
+    });
+    let outcome = match rx.recv_timeout(timeout) {
+        Ok(r) => r,
+        Err(_) => Ok(Some(Finding { class: "no-answer".into(), step: 0, detail: format!("did not finish within {} s", timeout.as_secs()) })),
+    };
+    match outcome {
         Err(e) => {
             println!("replay: {e} - not reproduced");
             simcore::EXIT_OK
